@@ -247,6 +247,9 @@ func (r *Run) Finish(evaluations, distinct, minDistinct int, rule string) {
 		fmt.Fprintln(os.Stderr, err)
 		os.Exit(3)
 	}
+	// the last run of each tier is kept as well (evidence/<id>.json is whichever ran last)
+	os.MkdirAll(filepath.Join(Root, "evidence", "tiers"), 0o755)
+	os.WriteFile(filepath.Join(Root, "evidence", "tiers", r.ID+"."+r.Tier+".json"), b, 0o644)
 	fmt.Printf("%s %s seed=%d: evaluations=%d distinct_nontrivial=%d violations=%d known=%d wall=%.1fs\n",
 		r.ID, r.Tier, r.Seed, evaluations, distinct, r.violations, len(r.knownHit), time.Since(r.start).Seconds())
 	if r.violations > 0 {
